@@ -12,6 +12,7 @@ CONFIG = dict(
           "query order. Non-trivial = the DAG has a validator whose fork is visible to some events but not to others, and both true and "
           "false answers occur; distinct by DAG hash."),
     assumptions=["events are indexed parents-first and flushed one by one, as IndexedLachesis does"],
+    level_more='Both indexes are driven through drawn sessions (flush periods, reloads from the database by DropNotFlushed / Reset / a new index object); a third of the index objects served another validator group before. Unit TestC05Shapes runs the property on the large shapes.',
     units=[dict(test="TestC05ForklessCause", quick=5000, thorough=240000, shards=16),
            # the rare large shapes: 65-70 validators with forkers at sorted index >= 64 and marginal quorums, long quorum-less phases, mass forks
            dict(test="TestC05Shapes", quick=10, thorough=640, shards=16)],
